@@ -42,7 +42,7 @@ import (
 //             -> chordimpl.Server            (chord/server_rpc.go, rpc.WrapError[KV])
 //               -> scriptedVNode             (returns the generated origin error)
 
-// Signatures of failure classes (stable; listed ones live in known_findings.json).
+// Signatures of failure classes (stable; listed ones live in /verif/known_findings.d/rpcx.json).
 const (
 	sigC14Dropped          = "error-dropped-by-rpc"
 	sigC14BareIdentity     = "bare-chord-error-not-recognised"
